@@ -11,12 +11,12 @@ import family
 from common import Ctx, MachineryError, pmap
 
 JUDGE = ["C18_TargetTouchedLast", "C18_NothingBeside", "C18_FailureAtomic", "C18_Success", "C18_Raises"]
-CONV = {"ok", "raise_before", "raise_after", "ret_list", "ret_none", "ret_str"}
+CONV = {"ok", "raise_before", "raise_after", "ret_list", "ret_none", "ret_str", "ret_missing"}
 TARGETS = {"absent", "old", "missingdir"}
 WRITERS = {"rtf", "docx", "html", "pdf"}
 
 
-def _call_sites(writer):
+def _call_sites(writer, real=False):
     """(first instance index of every distinct call site, total number of calls)."""
     import os
     sites = {}
@@ -31,20 +31,99 @@ def _call_sites(writer):
     import contextlib, io, tempfile
     root = tempfile.mkdtemp(prefix="rtflite-verif-exp-")
     old = tempfile.tempdir
+    fake = None
     try:
         doc = export.make_doc()
         os.makedirs(os.path.join(root, "tmp"))
         tempfile.tempdir = os.path.join(root, "tmp")
+        conv = export.StubConverter("ok")
+        if real:
+            import converter as cvt
+            from rtflite.convert import LibreOfficeConverter
+            os.makedirs(os.path.join(root, "lo"))
+            fake = cvt.FakeEnv(os.path.join(root, "lo"), {"arg": "abs_ok", "onpath": "none", "ver": "7.1", "beh": "ok", "behat": 1})
+            fake.__enter__()
+            conv = LibreOfficeConverter(executable_path=fake.arg())
         sys.settrace(tracer)
         try:
             with contextlib.redirect_stdout(io.StringIO()):
-                export._call(doc, writer, os.path.join(root, "o", "r." + export._ext(writer)), export.StubConverter("ok"))
+                export._call(doc, writer, os.path.join(root, "o", "r." + export._ext(writer)), conv)
         finally:
             sys.settrace(None)
             tempfile.tempdir = old
     finally:
+        if fake is not None:
+            fake.__exit__(None, None, None)
         shutil.rmtree(root, ignore_errors=True)
     return sites, n["n"]
+
+
+CONV_INV = ["TypeOK", "VersionFirst", "NoConvertAfterRefusal", "NoSilentOverwrite", "ReturnsOnlyExisting", "FailurePropagates"]
+ALLARGS = {"none", "abs_ok", "abs_missing", "rel_ok", "rel_missing", "bare_ok", "bare_missing", "home_ok"}
+
+
+def _converter_family(ctx, work, tier):
+    """spec/Converter.tla: model-check the converter's design, then replay every scenario on the real
+    LibreOfficeConverter against the fake program and validate the recorded invocations (ConvTrace.tla).
+    Differences are model drift (the converter's own contract is not one of the listed properties); what
+    the converter does to an export is judged by the C18 clauses through the 'real'/'onpath' scenarios."""
+    import converter as cvt
+    import tlc
+    from common import write_json
+    B = {False, True}
+    ctor = dict(Args=ALLARGS, OnPaths={"none", "soffice", "libreoffice", "both"}, Versions={"7.1", "24.8", "7.0", "6.4", "garbage", "exit1"},
+                Ops={"single"}, InMissSet={0}, OutDirs={"present"}, PreSet={0}, OverwriteSet={False}, Behaviours={"ok"}, BehAtSet={1})
+    conv = dict(Args={"abs_ok"}, OnPaths={"none"}, Versions={"7.1"}, Ops={"single", "single_str", "batch2"}, InMissSet={0, 1, 2},
+                OutDirs={"present", "missing"}, PreSet={0, 1, 2}, OverwriteSet=B, Behaviours={"ok", "fail_before", "fail_after", "silent"}, BehAtSet={1, 2})
+    fams = [("converter-constructor", ctor), ("converter-convert", conv)]
+    if tier == "thorough":
+        both = dict(conv); both.update(Args={"none", "bare_ok", "home_ok"}, OnPaths={"libreoffice", "both"}, Versions={"24.8", "7.0"})
+        fams.append(("converter-both", both))
+    got = []
+    for name, consts in fams:
+        res = family.model_check(ctx, work, "Converter", consts, CONV_INV, [], name)
+        if res.violated:
+            raise MachineryError("Converter model violates %s\n%s" % (res.violated, res.counterexample[:1500]))
+        got += family.generate(ctx, work, "Converter", consts, name)
+    seen, items = set(), []
+    for s in got:
+        key = json.dumps(s["cv"], sort_keys=True)
+        if key not in seen:
+            seen.add(key)
+            items.append({"id": len(items), "cv": s["cv"]})
+    recs = pmap(cvt.run_one, items, chunk=8)
+    traces = [{"id": r["id"], "cv": r["cv"], "ev": r["ev"], "obs": r["obs"]} for r in recs]
+    # binding self-test: a trace with its first invocation removed must be rejected
+    probe = next((dict(t) for t in traces if t["ev"]), None)
+    if probe is not None:
+        probe = dict(probe); probe["id"] = len(traces); probe["ev"] = probe["ev"][1:]
+        traces.append(probe)
+    tf = work.path("convtrace.json")
+    write_json(tf, traces)
+    cfg = work.cfg("convtrace.cfg", conv, spec="TSpec")
+    res = tlc.run("ConvTrace", cfg, env={"TRACE_FILE": tf})
+    ctx.add_tlc("validate:converter invocations[%d]" % len(traces), res)
+    verdict = {j["id"]: j["bad"] for j in res.json_lines if isinstance(j, dict) and "id" in j}
+    if len(verdict) != len(traces):
+        raise MachineryError("converter trace validation: %d verdicts for %d traces" % (len(verdict), len(traces)))
+    if probe is not None and not verdict[probe["id"]]:
+        raise MachineryError("binding self-test failed: a converter trace with a removed invocation was accepted")
+    ctx.traces += len(recs)
+    nd = 0
+    for r in recs:
+        extra = []
+        if r["obs"]["ctor"] == "constructed" and not r["obs"]["exe_is_file"]:
+            extra.append("executable_path is not a file")
+        if r["obs"]["result"] in ("path", "list") and not r["obs"]["returned_ok"]:
+            extra.append("returned path is not <output_dir>/<stem>.<format>")
+        if verdict[r["id"]] or extra:
+            nd += 1
+            ctx.model_drift("Converter %s: %s (observed %s, invocations %s)" % (json.dumps(r["cv"], sort_keys=True), "; ".join(list(verdict[r["id"]]) + extra),
+                                                                            json.dumps(r["obs"]), json.dumps(r["ev"])))
+    ctx.extra["converter_family"] = {"scenarios": len(recs), "accepted_by_ConvTrace": len(recs) - nd, "drift": nd,
+                                     "constructor_outcomes": sorted({r["obs"]["ctor"] for r in recs}),
+                                     "convert_outcomes": sorted({r["obs"]["result"] for r in recs}),
+                                     "binding_self_test": "trace with a removed invocation rejected"}
 
 
 def _judge(ctx, work, recs):
@@ -75,11 +154,15 @@ def run(pid, tier, seed, replay=None):
         first = sorted(sites.values())
         ctx.extra["library_calls_per_export"] = ncalls
         ctx.extra["distinct_call_sites"] = len(first)
+        rsites, rcalls = _call_sites("docx", real=True)
+        first = sorted(set(first) | set(rsites.values()))
         if tier == "quick":
             faults = set(first)
         else:
-            faults = set(first) | set(rng.sample(range(1, ncalls + 1), min(ncalls, 2500)))
-        base = dict(Writers=WRITERS, Targets0=TARGETS, ConvOutcomes=CONV, Flavours={"base", "exc"}, HaveLibreOffice=have_lo, FsFaults=set())
+            faults = set(first) | set(rng.sample(range(1, rcalls + 1), min(rcalls, 2500)))
+        ctx.extra["library_calls_per_export_real_converter"] = rcalls
+        base = dict(Writers=WRITERS, Targets0=TARGETS, ConvOutcomes=CONV | {"silent"}, Flavours={"base", "exc"}, HaveLibreOffice=have_lo, FsFaults=set(),
+                    ConverterKinds={"stub", "default", "real", "onpath"})
         # MODEL: every fault point class x converter outcome x target state x writer
         mc = dict(base); mc.update(Faults={1, 2}, EncodeBeforeOpen=True)
         res = family.model_check(ctx, work, "Export", mc, ["AllOrNothing", "TargetOnlyByLastStep", "MalformedRaises"], [], "as-implemented")
@@ -96,13 +179,13 @@ def run(pid, tier, seed, replay=None):
         scs += family.generate(ctx, work, "Export", g1, "nofault")
         fw = {"docx", "rtf"} if tier == "quick" else WRITERS
         g2 = dict(base); g2.update(Writers=fw, Targets0={"old"} if tier == "quick" else {"old", "absent"}, Faults=faults, EncodeBeforeOpen=True,
-                                   Flavours={"base", "exc"})
+                                   Flavours={"base", "exc"}, ConverterKinds={"stub", "default", "real"} if tier == "quick" else {"stub", "default", "real", "onpath"})
         got = family.generate(ctx, work, "Export", g2, "faults")
         scs += [s for s in got if s["sc"]["fault"] != 0]
         # crash points at file-system operations: the k-th mkdir / open-for-write / move of the export raises OSError
         g3 = dict(base); g3.update(Faults=set(), FsFaults=set(range(1, 13)), EncodeBeforeOpen=True, ConvOutcomes={"ok"})
         got3 = family.generate(ctx, work, "Export", g3, "fsfaults")
-        scs += [s for s in got3 if s["sc"]["fsfault"] != 0 and s["sc"]["converter"] == "stub"]
+        scs += [s for s in got3 if s["sc"]["fsfault"] != 0 and s["sc"]["converter"] in ("stub", "real")]
         seen = set()
         items = []
         for s in scs:
@@ -113,6 +196,7 @@ def run(pid, tier, seed, replay=None):
             items.append({"id": len(items), "sc": s["sc"], "pred": s["pc"]})
         recs = pmap(export.run_one, items, chunk=8)
         _judge(ctx, work, recs)
+        _converter_family(ctx, work, tier)
         nd = 0
         absorbed = 0
         for it, r in zip(items, recs):
@@ -141,7 +225,7 @@ def run(pid, tier, seed, replay=None):
         ctx.rule = ("scenarios enumerated by TLC from spec/Export.tla: writer x target state x converter x converter outcome without fault (exhaustive), "
                     "and a BaseException / Exception injected at the first instance of every distinct library call site%s; non-trivial = fault, "
                     "malformed converter outcome or pre-existing/missing target" % ("" if tier == "quick" else " plus 2500 sampled call instances, all four writers"))
-        ctx.assumptions = ["converter contract stubbed (no LibreOffice in the sandbox: %s)" % (not have_lo), "file-system events from sys.addaudithook",
+        ctx.assumptions = ["no LibreOffice in the sandbox (%s): the converter is a stub object, or the real LibreOfficeConverter driving the fake program of harness/converter.py" % (not have_lo), "file-system events from sys.addaudithook",
                            "temporary files are looked for in a private tempfile.tempdir"]
         return ctx.finish()
     finally:
